@@ -58,6 +58,9 @@ pub struct Post
     /// per slot: alive, A value, B value
     pub slots: Vec<(bool, Option<u8>, Option<u8>)>,
     pub res: [u8; 2],
+    /// value of the removable resource `T` (None = absent)
+    #[serde(default)]
+    pub res_t: Option<u8>,
     /// world entity count minus entities the harness knows to be alive minus the baseline
     pub excess_entities: i64,
     /// per (ewr, slot): local data present (hooks only)
